@@ -99,6 +99,8 @@ REWRITES = {
     "str_len": ("re", r"\btext\.len\(\)", r"str_len(text)", "str::len -> shim (byte length)"),
     "string_replace_range_acc": ("re", r"acc\.text\.replace_range\(", r"string_replace_range(&mut acc.text, ", "String::replace_range has no vstd spec; shim with the std call"),
     "filter_map_collect": ("chain_fmc2", "filter_map", "filter_map_collect", "xs.iter().filter_map(f).collect() -> shim with the same std body (R8)"),
+    "skip_while_collect": ("chain_fmc2", "skip_while", "skip_while_collect", "xs.into_iter().skip_while(p).collect() -> shim with the same std body (R8): the suffix starting at the first element that does not satisfy p"),
+    "array_concat4": ("re", r"\[unaffected_head, new_tokens, unaffected_tail, vec!\[eof\]\]\.concat\(\)", "concat4(unaffected_head, new_tokens, unaffected_tail, eof)", "[a, b, c, vec![d]].concat() -> shim with the same std body: the four parts in order"),
     "find_map_first": ("chain_fm", "find_map", "find_map_first", "xs.iter().find_map(f) -> shim with the same std body (R8): the first Some result in order"),
     "option_iter_find_map": ("re", r"(?s)opt\.iter\(\)\s*\.map\(\|boxed\| boxed\.as_ref\(\)\)\s*\.find_map\(\|r\| ", r"option_find_map(opt, |r| ", "Option::iter().map(Box::as_ref).find_map(f): an Option yields at most one element -> shim `match opt { Some(b) => f(&**b), None => None }`"),
     "or_else_inline": ("opt_or_else", "", "", "Option::or_else(f) inlined as its std definition `match self { Some(v) => Some(v), None => f() }`"),
@@ -302,7 +304,8 @@ def apply_rewrite(name, text):
         return text[:rs] + new + text[k2 + m3.end():], {"rewrite": name, "why": why, "sites": [{"from": text[rs:rs + 100] + " ...", "to": new[:100]}]}
     if spec[0] == "chain_fm":
         _, method, fname, why = spec
-        pat = re.compile(r"\.\s*iter\(\)\s*\.\s*" + method + r"\s*\(")
+        by_value = method == "skip_while"
+        pat = re.compile(r"\.\s*" + ("into_iter" if by_value else "iter") + r"\(\)\s*\.\s*" + method + r"\s*\(")
         out, sites, pos = text, [], 0
         while True:
             m = pat.search(out, pos)
@@ -345,7 +348,8 @@ def apply_rewrite(name, text):
         return text[:rs] + new + text[k:], {"rewrite": name, "why": why, "sites": [{"from": text[rs:k][:120], "to": new[:120]}]}
     if spec[0] == "chain_fmc2":
         _, method, fname, why = spec
-        pat = re.compile(r"\.\s*iter\(\)\s*\.\s*" + method + r"\s*\(")
+        by_value = method == "skip_while"
+        pat = re.compile(r"\.\s*" + ("into_iter" if by_value else "iter") + r"\(\)\s*\.\s*" + method + r"\s*\(")
         out, sites, pos = text, [], 0
         while True:
             m = pat.search(out, pos)
@@ -366,7 +370,7 @@ def apply_rewrite(name, text):
             if not tail:
                 pos = k
                 continue
-            new = f"{fname}(&{recv}, {clo})"
+            new = f"{fname}({'' if by_value else '&'}{recv}, {clo})"
             sites.append({"from": out[rs:k + tail.end()][:120], "to": new[:120]})
             out = out[:rs] + new + out[k + tail.end():]
             pos = rs + 10
@@ -456,6 +460,8 @@ def parse_seg(seg):
         return ("letexpr", seg[len("letexpr "):].strip())
     if seg.startswith("loopbody "):
         return ("loopbody", seg[len("loopbody "):].strip())
+    if seg.startswith("tailfrom "):
+        return ("tailfrom", seg[len("tailfrom "):].strip())
     if seg.startswith("letblock "):
         return ("letblock", seg[len("letblock "):].strip())
     if seg.startswith("derive "):
@@ -495,6 +501,23 @@ def resolve(file, segs):
                 raise LostAnchor(f"{file} :: letexpr {name} resolves {len(found)} times")
             r = Resolved()
             r.src, r.toks, r.closure = src, toks, found[0]
+            r.chain = chain
+            r.kind = "closure"
+            return r
+        if kind == "tailfrom":
+            # the statements from `let NAME` to the end of the enclosing fn body (its tail expression included) are lifted like a closure body (R6)
+            found, x = [], lo
+            while x < hi - 1:   # statements of the fn body itself, not of nested blocks or items
+                if toks[x].kind == "open":
+                    x = toks[x].mate + 1
+                    continue
+                if toks[x].kind == "id" and toks[x].text == "let" and toks[x + 1].text == name:
+                    found.append(x)
+                x += 1
+            if len(found) != 1:
+                raise LostAnchor(f"{file} :: tailfrom {name} resolves {len(found)} times")
+            r = Resolved()
+            r.src, r.toks, r.closure = src, toks, (found[0], found[0] + 1, found[0], hi - 1, False)
             r.chain = chain
             r.kind = "closure"
             return r
